@@ -4,6 +4,7 @@ import Iavl.Lemmas.Sharing
 import Iavl.Generated.FactsOk
 import Iavl.Lemmas.VersionSharingN
 import Iavl.Lemmas.PruneSafe
+import Iavl.Lemmas.RootRecordsInv
 /-
   C12 — storage holds exactly the nodes reachable from retained versions. The executable audit
   `auditDump` (Model/Store.lean) decides the property on a concrete database image; it is run on the
@@ -57,6 +58,38 @@ theorem pruned_nodes_needed_by_no_later_version (iv : Option Nat) (ops : List (O
 /-- the audit's node decoder inverts the encoder on every well-formed record -/
 theorem audit_decoder_sound (n : NodeRec) (hwf : NodeWF n) : decNode (encNode n) = some n :=
   decNode_encNode n hwf
+
+section roots
+open Iavl.Roots
+/-- **the root records stay right** (Model/RootRecords.lean: node keys (version, nonce), root record = the root
+    node / a reference to an older node / the empty value, `deleteVersion` re-keying a root that is still used
+    to nonce 0, the fallbacks of `GetRoot` and `GetNode`). In every state reached from the empty store by
+    commits and deletions of the lowest version: `GetRoot` resolves the root of every retained version to the
+    key it is stored under, `GetNode` finds every node of every retained version through the key it was
+    created under, and `hasVersion` (the predicate behind `VersionExists`, `AvailableVersions` and the
+    first-version search of C14) holds exactly for the retained versions - so a deleted version is gone
+    although its root may live on, and nothing a retained version needs is missing. -/
+theorem root_records_right_in_every_history (s : Store) (w : World) (h : Reach s w) :
+    (∀ v, w.retained v →
+      getRoot s v = match w.root v with | none => .emptyTree | some id => .at (phys w.first id)) ∧
+    (∀ v id, w.retained v → id ∈ w.nodes v → getNode s id = some (.node id)) ∧
+    (∀ v, hasVersion s v = true ↔ w.retained v) :=
+  have hi := reach_inv s w h
+  ⟨fun v hv => getRoot_retained s w hi v hv, fun v id hv hm => getNode_retained s w hi v hv id hm,
+   fun v => hasVersion_iff s w hi v⟩
+
+/-- non-vacuity: three commits (a three-node tree; a commit without writes; a tree that shares the old root as an
+    inner child), then the first two versions are deleted: the old root is re-keyed, version 3 still finds it -/
+example :
+    let s1 := save (fun _ => none) 1 [2, 3] .created
+    let s2 := save s1 2 [] (.inherited (1, 1))
+    let s3 := save s2 3 [2] .created
+    let s4 := deleteVersion s3 1 []
+    let s5 := deleteVersion s4 2 []
+    getRoot s3 2 = .at (1, 1) ∧ getRoot s5 3 = .at (3, 1) ∧ hasVersion s5 1 = false ∧ hasVersion s5 2 = false ∧
+      s5 (1, 1) = none ∧ s5 (1, 0) = some (.node (1, 1)) ∧ getNode s5 (1, 1) = some (.node (1, 1)) ∧
+      getRoot s4 2 = .at (1, 0) := by decide
+end roots
 
 theorem keyspace : Facts.nodeKeyPrefix = 115 ∧ Facts.fastKeyPrefix = 102 ∧ Facts.metadataKeyPrefix = 109 :=
   ⟨Facts.keyspace_ok.1, Facts.keyspace_ok.2.1, Facts.keyspace_ok.2.2.1⟩
